@@ -307,6 +307,14 @@ var c17Impls = []c17Impl{
 		if err != nil {
 			return nil, nil, err
 		}
+		// the stored form: every store keeps values protobuf-encoded
+		if b, err := native.Marshal(); err == nil {
+			var stored configv2.TypedValue
+			if err := stored.Unmarshal(b); err != nil {
+				return nil, nil, err
+			}
+			native = &stored
+		}
 		back, err := valuesv2.NativeTypeToGnmiTypedValue(native)
 		if err != nil {
 			return nil, nil, err
@@ -324,6 +332,13 @@ var c17Impls = []c17Impl{
 		native, err := valuesv3.GnmiTypedValueToNativeType(v, &configv3.ReadWritePath{TypeOpts: opts})
 		if err != nil {
 			return nil, nil, err
+		}
+		if b, err := native.Marshal(); err == nil {
+			var stored configv3.TypedValue
+			if err := stored.Unmarshal(b); err != nil {
+				return nil, nil, err
+			}
+			native = &stored
 		}
 		back, err := valuesv3.NativeTypeToGnmiTypedValue(native)
 		if err != nil {
@@ -415,6 +430,12 @@ func checkC17(rc *RunCtx) *Report {
 	if rc.Replay != "" {
 		var c c17Case
 		var implName string
+		var journey string
+		if err := loadReplay(rc.Replay, "journey", &journey); err == nil && journey != "" {
+			c17Journeys(rc, rep)
+			rep.Coverage["evaluations"] = 1
+			return rep
+		}
 		if err := loadReplay(rc.Replay, "case", &c); err != nil {
 			rep.HarnessErr = err.Error()
 			return rep
@@ -446,7 +467,8 @@ func checkC17(rc *RunCtx) *Report {
 	rep.Coverage["distinct_nontrivial"] = len(distinct)
 	rep.Coverage["rule"] = "every gNMI scalar kind (int/uint at widths 8,16,32,64 with min,-1,0,1,max and the values just outside the next smaller width; string/ascii incl. empty and non-ASCII; bool; bytes incl. empty; decimal64 digits extremes x precision 0,1,2,18; float32 incl. -0, denormal min, max, 1/3) and every homogeneous leaf-list of 1..2 (thorough 1..3) of them, through GnmiTypedValueToNativeType -> NativeTypeToGnmiTypedValue and BuildTree(rfc7951) for v2 and v3; non-trivial = distinct (value,width) that was accepted and rendered"
 	rep.Assumptions = append(rep.Assumptions, "the RFC 7951 expectation: 64-bit integers and decimal64 as strings, narrower integers as numbers, bytes base64; float32 (not a YANG type) must read back as the same float32")
+	c17Journeys(rc, rep)
 	return rep
 }
 
-func init() { register("C17", checkC17) }
+func init() { registerBubble("C17", checkC17) }
